@@ -6,6 +6,7 @@ open StarsimModel.C01
 #print axioms C01_readers_are_known
 #print axioms C01_no_shared_mutable_state
 #print axioms C01_writes_are_reseeding
+#print axioms C01_stream_deterministic
 #print axioms C01_seed_derivation
 #print axioms C01_seed_formula_is_model
 #print axioms C01_seed_formula
